@@ -300,6 +300,10 @@ MUST_FIRE += [
     ("m128", ["C10"], ["U1"], rep1(S + "tomography.py", "        for index, circuit in enumerate(self.circuits):", "        for index, circuit in enumerate(self.mubs):"), "fitter reads an attribute nobody defines"),
     ("m129", ["C18"], ["K18"], rep1(S + "f2_algebra.py", "    for i in range(cols):\n        if i not in pivot_cols:", "    for i in range(1, cols):\n        if i not in pivot_cols:"), "column 0 never considered as a free column"),
     ("m130", ["C12"], ["B1"], rep1(S + "tomography.py", "    return Pauli((np.array([bool(int(x)) for x in l]), np.zeros(num_qubits, dtype=bool)))", "    return Pauli((np.array([bool((bitstring >> (num_qubits - 1 - j)) & 1) for j in range(num_qubits)]), np.zeros(num_qubits, dtype=bool)))"), "mask bits taken from the other end (shift form)"),
+    ("m131", ["C09"], ["W9"], rep1(S + "circuit_lookup.py", "        result.mubs = [list(mub) for mub in self.mubs]", "        result.mubs = (list(mub) for mub in self.mubs)"), "bases handed out as a one-shot generator"),
+    ("m132", ["C10"], ["W3"], rep1(S + "tomography.py", "        counts = self.result.get_counts()\n        if isinstance(counts, list):\n            counts = counts[self.result_index]", "        counts = self.result.get_counts(circuit)"), "counts looked up by circuit name instead of by the stored index"),
+    ("m133", ["C10"], ["W2", "W1"], rep1(S + "tomography.py", "        circuit: QuantumCircuit = preparation_circuit.compose(readout_circuit, qubits=measured_qubits)  # type: ignore\n        circuit.measure_all()\n        if circuit.metadata is None:\n            circuit.metadata = {}\n        circuit.metadata[\"readout info\"] = ReadoutInfo(readout_circuit, preparation_circuit.num_qubits, measured_qubits)\n\n        circuits.append(circuit)", "        circuit: QuantumCircuit = preparation_circuit.compose(readout_circuit, qubits=measured_qubits)  # type: ignore\n        circuit.measure_active()\n        if circuit.metadata is None:\n            circuit.metadata = {}\n        circuit.metadata[\"readout info\"] = ReadoutInfo(readout_circuit, preparation_circuit.num_qubits, measured_qubits)\n\n        circuits.append(circuit)"), "tomography circuits measured with measure_active"),
+    ("m134", ["C16"], ["K9"], rep1(S + "find_local_clifford_layer.py", "    combinations = np.arange(2**rank)\n", "    combinations = np.arange(2**rank, dtype=np.uint16)\n"), "16-bit counter for up to 2^24 combinations"),
     ("m95", ["C19"], ["K12"], rep1(S + "graph.py", "    def compress(self) -> int:", "    def compress(self) -> int:\n        if getattr(self, \"_id\", None) is not None:\n            return self._id\n        self._id = self._compress()\n        return self._id\n\n    def _compress(self) -> int:"), "graph id remembered by the object and never invalidated"),
     ("m72", ["C13"], ["A3"], rep1(S + "circuit_lookup.py", "result.circuits = [circuit.copy() for circuit in self.circuits]", "result.circuits = list(self.circuits)"), "fresh list of the cached circuits"),
 ]
